@@ -34,6 +34,86 @@ SINK_RX = r'TieredEngine::(insert|bulk_load_cold_tier|delete|batch_delete|batch_
           r'query_with_source|bulk_query_with_source|knn_search\w*|get_metadata|exists|get_embedding_cache_aware)$'
 
 
+def bucket_roles(prog):
+    """Structural roles inside TokenBucket, found from what the bodies do (not from their names): the time-credit bodies (a capped write of `tokens` whose
+    value derives from duration_since), the core consumers (the guarded `tokens − 1`) and their thin wrappers (functions returning a consumer's verdict)."""
+    credit, core = [], []
+    tb = [b for b in prog.bodies.values() if '::rate_limiter::TokenBucket::' in '::' + b.id or 'rate_limiter::TokenBucket::' in b.id]
+    for b in tb:
+        of = None
+        for i, blk in enumerate(b.blocks):
+            if i not in b.live_blocks():
+                continue
+            for s_ in blk['s']:
+                rv = s_.get('rv')
+                pr = s_['pl'].get('p') or [] if rv else []
+                fs = [x for x in pr if isinstance(x, str) and x != '*']
+                if rv and fs and fs[-1].endswith('TokenBucket.tokens'):
+                    of = of or flow.Origin(b)
+                    r = flow.render(of.of_rvalue(rv, 0, frozenset()))
+                    if 'duration_since' in r and b not in credit:
+                        credit.append(b)
+                    if re.search(r'TokenBucket\.tokens Sub 1', r) and b not in core:
+                        core.append(b)
+    consumers = list(core)
+    changed = True
+    while changed:
+        changed = False
+        for b in tb:
+            if b in consumers:
+                continue
+            d0 = b.defs.get(0, [])
+            if d0 and all(d[2] == 'call' and d[3].callee and prog.resolve_local(d[3].callee) in consumers for d in d0):
+                consumers.append(b)
+                changed = True
+    return credit, core, consumers
+
+
+def reaches_body(prog, b, targets, depth=3):
+    """calls in b that reach one of `targets` (directly or through TokenBucket helpers)"""
+    out = []
+    for c in b.calls:
+        g = prog.resolve_local(c.callee) if c.callee else None
+        if g is None or g is b:
+            continue
+        if g in targets or (depth > 0 and 'rate_limiter::TokenBucket::' in g.id and reaches_body(prog, g, targets, depth - 1)):
+            out.append(c)
+    return out
+
+
+def stamp_monotone(prog, b, op, depth=3):
+    """Is the instant stored into last_refill never earlier than the stored one?  Yes when it is read from the monotonic clock inside the bucket's critical
+    section: Instant::now() in this body (it runs under &mut self), or a parameter that every caller fills with an Instant::now() evaluated after the bucket's
+    Mutex::lock() it calls the method on.  Returns (ok, how)."""
+    e = flow.Origin(b).of_operand(op)
+    r = flow.render(e)
+    if re.match(r'^(time::)?Instant::now\(\)$', r):
+        return True, 'Instant::now() read in %s (under &mut self)' % b.name
+    if e[0] == 'arg' and depth > 0:
+        n = e[1]
+        callers = [c for c in prog.callers_of(b.short.split('::', 1)[-1]) if prog.resolve_local(c.callee) is b]
+        if not callers:
+            return False, 'parameter %s with no caller to inspect' % r
+        for c in callers:
+            u = c.body
+            if len(c.args) < n:
+                return False, 'call at %s has no such argument' % c.loc
+            a = c.args[n - 1]
+            ok, how = stamp_monotone(prog, u, a, depth - 1)
+            if not ok:
+                return False, 'via %s: %s' % (u.name, how)
+            if 'read in %s' % u.name in how and 'rate_limiter::TokenBucket::' not in u.id:
+                # read outside the bucket: it has to come after the lock acquisition of the receiver
+                ou = flow.Origin(u)
+                nowc = [x for x in u.calls if x.callee and re.search(r'Instant::now$', x.callee) and x.dest is not None and a.get('k') in ('mv', 'cp') and u.dominates(x.bb, c.bb)]
+                lk = [x for x in u.calls if x.callee and re.search(r'Mutex<.*>::lock$|Mutex::lock$', flow.short(x.callee)) and u.dominates(x.bb, c.bb)]
+                recv = flow.render(ou.of_operand(c.args[0]))
+                if not (lk and nowc and any(u.dominates(l_.bb, n_.bb) and l_.bb != n_.bb or (l_.bb != n_.bb and n_.bb in u.reach([l_.bb]) and l_.bb not in u.reach([n_.bb])) for l_ in lk for n_ in nowc if flow.render(ou.of_operand(l_.args[0])) in recv)):
+                    return False, 'via %s: the clock is read at %s before the bucket is locked — a racing request that read it later may already have stamped a later instant' % (u.name, nowc[0].loc if nowc else '?')
+        return True, 'parameter filled by every caller with a clock read inside the critical section'
+    return False, 'stored instant is %s' % r[:80]
+
+
 def run(ctx, prog):
     ctx.not_decided = ['the inequality admitted ≤ burst + rate·Δt (floating-point refill over real time)',
                        'fairness between tenants under contention']
@@ -86,17 +166,53 @@ def run(ctx, prog):
                     ctx.inst('C19.R1', b.short, 'construction: tokens = capacity = rate', tok == cap == rate,
                              'TokenBucket{capacity: %s, tokens: %s, refill_rate: %s}' % (cap, tok, rate))
     ctx.floor('C19.R1', 'writes of TokenBucket.tokens', n_w, 4, 'new, try_consume, refund_one, refill')
-    rf = ctx.body('C19.R1', 'TokenBucket::refill')
-    tw = util.assign_blocks(rf, r'TokenBucket\.tokens$')
-    lw = util.assign_blocks(rf, r'TokenBucket\.last_refill$')
-    if tw:
-        st_ = [b_ for b_ in tw if b_ not in lw]
-        r = (rf.reach(st_, avoid_blocks=lw) | set(st_)) if st_ else set()
-        ctx.inst('C19.R1', rf.short, 'refill stamps last_refill whenever tokens are added', bool(lw) and not any(x in r for x in rf.return_blocks()),
-                 'a path adds tokens without moving last_refill (the same interval would be credited twice)' if any(x in r for x in rf.return_blocks()) else 'tokens and last_refill move together')
-    tc = ctx.body('C19.R1', 'TokenBucket::try_consume')
-    ctx.inst('C19.R1', tc.short, 'try_consume refills first', bool(tc.calls_to('TokenBucket::refill')) and all(tc.dominates(c.bb, b_) for c in tc.calls_to('TokenBucket::refill') for b_ in util.assign_blocks(tc, r'TokenBucket\.tokens$')),
-             'refill() dominates the consumption')
+    credit, core, consumers = bucket_roles(prog)
+    if not credit:
+        ctx.missing('C19.R1', 'a TokenBucket function that credits tokens from elapsed time (capped write of tokens derived from duration_since)')
+    if not core:
+        ctx.missing('C19.R1', 'a TokenBucket function that consumes a token (guarded tokens − 1)')
+    for rf in credit:
+        tw = util.assign_blocks(rf, r'TokenBucket\.tokens$')
+        lw = util.assign_blocks(rf, r'TokenBucket\.last_refill$')
+        if tw:
+            st_ = [b_ for b_ in tw if b_ not in lw]
+            r = (rf.reach(st_, avoid_blocks=lw) | set(st_)) if st_ else set()
+            ctx.inst('C19.R1', rf.short, 'refill stamps last_refill whenever tokens are added', bool(lw) and not any(x in r for x in rf.return_blocks()),
+                     'a path adds tokens without moving last_refill (the same interval would be credited twice)' if any(x in r for x in rf.return_blocks()) else 'tokens and last_refill move together')
+        # the stamp never moves backwards: an instant read before the bucket was locked can be older than what a racing request already stored; storing it
+        # re-credits the interval in between on the next refill. Either the instant is read inside the critical section, or the store is behind `elapsed > 0`
+        ovr = flow.Origin(rf, stop_at_vars=True)
+        ofr = flow.Origin(rf)
+        k_ = 0
+        for i, blk in enumerate(rf.blocks):
+            if i not in rf.live_blocks():
+                continue
+            for s_ in blk['s']:
+                rv = s_.get('rv')
+                pr = (s_['pl'].get('p') or []) if rv else []
+                fs = [x for x in pr if isinstance(x, str) and x != '*']
+                if not (rv and fs and fs[-1].endswith('TokenBucket.last_refill') and rv['k'] == 'use'):
+                    continue
+                ok, how = stamp_monotone(prog, rf, rv['a'])
+                if not ok:
+                    # guarded by elapsed > 0 where elapsed = V.duration_since(self.last_refill)
+                    v = flow.render(ofr.of_operand(rv['a']))
+                    g = []
+                    for j, blk2 in enumerate(rf.blocks):
+                        if blk2['t']['k'] == 'switch':
+                            for tg, p in flow.switch_edge_predicates(rf, j, ofr):
+                                if re.match(r'^cmp\[(\+ )?.*duration_since\(%s, arg:self→TokenBucket\.last_refill\).* > 0(\.0)?(f64)?\]$' % re.escape(v), p) or \
+                                        re.match(r'^cmp\[0(\.0)?(f64)? < .*duration_since\(%s, arg:self→TokenBucket\.last_refill\).*\]$' % re.escape(v), p):
+                                    g.append((j, tg))
+                    if g and i not in rf.reach([0], avoid_edges=g):
+                        ok, how = True, 'stored only behind `%s.duration_since(last_refill) > 0`' % v
+                ctx.inst('C19.R1', rf.short, 'last_refill never moves backwards #%d' % k_, ok, how)
+                k_ += 1
+    for tc in core:
+        rc = reaches_body(prog, tc, credit)
+        wr = [b_ for b_ in util.assign_blocks(tc, r'TokenBucket\.tokens$')]
+        ctx.inst('C19.R1', tc.short, 'try_consume refills first', bool(rc) and all(any(tc.dominates(c.bb, b_) for c in rc) for b_ in wr),
+                 'the time credit (%s) dominates the consumption' % [flow.short(c.callee) for c in rc][:2])
 
     # ------------------------------------------------------------------ R2
     ctx.rule('C19.R2', 'check_limit on both bucket paths: `true` only past the tenant\'s and the global bucket\'s consumption (or no '
@@ -105,10 +221,13 @@ def run(ctx, prog):
     cl = ctx.body('C19.R2', 'RateLimiter::check_limit')
     lm = LockModel(prog)
 
+    def consume_calls(u):
+        return [c for c in u.calls if c.callee and prog.resolve_local(c.callee) in consumers]
+
     def admission_shape(u, floor_t, floor_g):
         """tenant → global → refund shape of one function that consumes the buckets itself."""
         of = flow.Origin(u)
-        tcs = u.calls_to('TokenBucket::try_consume')
+        tcs = consume_calls(u)
         marks = {'t_ok': set(), 't_fail': set(), 'g_ok': set(), 'g_fail': set()}
         n_t = n_g = 0
         for c in tcs:
@@ -169,20 +288,20 @@ def run(ctx, prog):
             ctx.inst('C19.R2', u.short, 'charged tenant bucket #%d is the one registered in the shared map' % k2, reg, '%s on %s' % (flow.short(c.callee), recv[:150]))
             k2 += 1
         k_ = 0
-        for c in u.calls_to('TokenBucket::try_consume', 'TokenBucket::refund_one'):
+        for c in sorted(consume_calls(u) + u.calls_to('TokenBucket::refund_one'), key=lambda x: x.bb):
             h = lm.held_at(u, c.bb, must=False)
             ctx.inst('C19.R2', u.short, 'consumption #%d without the map lock' % k_, 'RateLimiter.buckets' not in h,
                      '%s at %s: may-held = %s' % (flow.short(c.callee), c.loc, sorted(h)))
             k_ += 1
 
-    if cl.calls_to('TokenBucket::try_consume'):
+    if consume_calls(cl):
         admission_shape(cl, 2, 2)
     else:
         # the admission step lives in a helper: the shape is checked there, and check_limit answers with the helper's verdict
         units = []
         for c in cl.calls:
             g = prog.resolve_local(c.callee) if c.callee else None
-            if g is not None and '::RateLimiter::' in g.id and g.calls_to('TokenBucket::try_consume') and g not in units:
+            if g is not None and '::RateLimiter::' in g.id and consume_calls(g) and g not in units:
                 units.append(g)
         if not units:
             ctx.missing('C19.R2', 'check_limit: consumption of the buckets (directly or in a helper it calls)')
